@@ -124,20 +124,24 @@ Theorem C19_concat_copies_count : forall q n h frag,
 Proof. exact concat_copies_count. Qed.
 Print Assumptions C19_concat_copies_count.
 
+(* renaming: the documentation defines the pattern by seven variable names (Gen: sc_doc_patterns); every one-to-one
+   renaming that keeps `str` apart and moves no name into or out of that documented list commutes with detection *)
 Theorem C19_concat_rename : forall q sg,
-  q_concat_name_table q = false -> cc_sigma_ok sg -> forall file,
+  q_concat_name_table q = false ->
+  (forall x, smem (lower (sg x)) sc_doc_patterns = smem (lower x) sc_doc_patterns) -> cc_sigma_ok sg -> forall file,
   q_concat_global_names q = false -> q_concat_dedup_by_name q = false ->
   concat_reports q (renameF sg file) = map (renameR sg) (concat_reports q file).
-Proof. intros q sg H. exact (concat_rename q sg (or_introl H)). Qed.
+Proof. intros q sg Hq H. apply (concat_rename q sg). unfold name_table. rewrite Hq. exact H. Qed.
 Print Assumptions C19_concat_rename.
 
-(* confinement of the name-table quirk (partial: the full statement is C19_concat_rename): with the table in use,
-   renaming still commutes for every renaming that moves no name into or out of the table *)
+(* confinement of the name-table quirk (partial: the full statement is C19_concat_rename): with the code's longer table
+   in force, renaming still commutes for every renaming that moves no name into or out of THAT table *)
 Theorem C19_concat_rename_partial : forall q sg,
+  q_concat_name_table q = true ->
   (forall x, smem (lower (sg x)) sc_patterns = smem (lower x) sc_patterns) -> cc_sigma_ok sg -> forall file,
   q_concat_global_names q = false -> q_concat_dedup_by_name q = false ->
   concat_reports q (renameF sg file) = map (renameR sg) (concat_reports q file).
-Proof. intros q sg H. exact (concat_rename q sg (or_intror H)). Qed.
+Proof. intros q sg Hq H. apply (concat_rename q sg). unfold name_table. rewrite Hq. exact H. Qed.
 Print Assumptions C19_concat_rename_partial.
 
 (* confinement of the global-name-set quirk (partial: the full statement is C19_concat_local_ordered): with the name
